@@ -518,6 +518,15 @@ def generate(repo):
                       if macro_text(hdr, n) is None or hashlib.sha256(macro_text(hdr, n).encode()).hexdigest()[:16] != fp]
     out.append("(* do the Q_MUTEX_* macros still have the text whose meaning was read by hand?  changed: %s *)" % (', '.join(changed_macros) or 'none'))
     out.append("Definition mutex_macros_reviewed : bool := %s." % ('false' if changed_macros else 'true'))
+    # every mutex of a lockable container is created recursive: the nested-entry theorem (an operation called between the user's
+    # lock() and unlock() returns at depth 1) reads Q_MUTEX_ENTER as "trylock succeeds for the owner", which holds for recursive
+    # mutexes only.  (file, recursive?) for each Q_MUTEX_NEW in the sources.
+    news = []
+    for f in FILES:
+        txt = open(os.path.join(repo, 'src', f)).read()
+        for m in re.finditer(r'Q_MUTEX_NEW\s*\(\s*[^,]+,\s*([^)]+?)\s*\)', txt):
+            news.append((os.path.basename(f), m.group(1).strip() == 'true'))
+    out.append("Definition mutex_new_recursive : list (string * bool) := [%s]." % '; '.join('("%s", %s)' % (n, 'true' if r else 'false') for n, r in news))
     out.append("Definition lock_users : list string := [%s]." % '; '.join('"%s"' % n for n in sorted(locky) if n in pub))
     out.append("Definition mutable_fields : list (string * string) := [%s]." % '; '.join('("%s", "%s")' % m for m in sorted(mutable)))
     return {'LockAst.v': '\n'.join(out) + '\n'}
